@@ -70,7 +70,9 @@ def carrier_yaml(address_size=16, endian='little', origin=None, zones=None, data
                     'operands': {'count': 1, 'operand_sets': {'list': ['reg'], 'disallowed_pairs': [['rb']]}}},
         },
     }
-    cfg['macros'] = {'two4': [{'instructions': ['n1', 'n2']}]}
+    cfg['macros'] = {'two4': [{'instructions': ['n1', 'n2']}],
+                     # a macro whose middle step is address-relative: the step's own address is the macro's address + 1
+                     'nbn': [{'operands': {'count': 1, 'operand_sets': {'list': ['imm16']}}, 'instructions': ['nop', 'bra @ARG(0)', 'nop']}]}
     pre = {}
     if zones:
         pre['memory_zones'] = [{'name': n, 'start': s, 'end': e} for (n, s, e) in zones]
